@@ -282,6 +282,11 @@ func (in *Interp) callSSA(caller *frame, fn *ssa.Function, args []Value, env []V
 			in.res.stub(name)
 			return ext(in, fr, args)
 		}
+		if co := concreteOnly[name]; co != nil {
+			if r, ok := co(in, args); ok {
+				return r
+			}
+		}
 		if fn.Origin() != nil {
 			if ext := intrinsics[fn.Origin().String()]; ext != nil {
 				in.res.stub(fn.Origin().String())
@@ -855,10 +860,11 @@ func (in *Interp) decide(alts []*smt.Term, kind string) int {
 			continue
 		}
 		r := smt.Sat
-		if a != in.tb.True || len(alts) > 1 {
+		if a != in.tb.True {
+			// (an alternative that is literally true is feasible: the path condition is satisfiable by invariant)
 			r = in.sol.Check(a)
+			in.res.Queries++
 		}
-		in.res.Queries++
 		switch r {
 		case smt.Sat:
 			feas = append(feas, i)
@@ -870,8 +876,11 @@ func (in *Interp) decide(alts []*smt.Term, kind string) int {
 	// cover obligation: the alternatives exhaust the path condition
 	if !(kind == "if" && n == 2) {
 		in.res.Obligations++
-		r := in.sol.Check(in.tb.Not(in.tb.Or(alts...)))
-		in.res.Queries++
+		r := smt.Unsat
+		if neg := in.tb.Not(in.tb.Or(alts...)); neg != in.tb.False {
+			r = in.sol.Check(neg)
+			in.res.Queries++
+		}
 		if r != smt.Unsat {
 			panic(inconclusive{fmt.Sprintf("cover obligation for %s not discharged (%s)", kind, r)})
 		}
@@ -1136,6 +1145,12 @@ func (in *Interp) strLen(s Str) BV {
 			total += n
 		case g.Itoa != nil:
 			panic(inconclusive{"len of a string containing a formatted symbolic integer"})
+		case g.B64 != nil:
+			if g.Enc == "std" || g.Enc == "url" {
+				total += (len(g.B64) + 2) / 3 * 4
+			} else {
+				total += (len(g.B64)*8 + 5) / 6
+			}
 		default:
 			total += len(g.Lit)
 		}
